@@ -247,6 +247,9 @@ func (x *Exec) builtin(e *ast.CallExpr, st *State, name string) Value {
 		v := x.expr(e.Args[0], st)
 		switch v := v.(type) {
 		case Sl:
+			if name == "cap" && v.Cap != nil {
+				return Sc{v.Cap}
+			}
 			if name == "cap" {
 				// cap >= len; unknown otherwise
 				c := x.freshTerm("cap", x.ar.idxSort())
